@@ -141,6 +141,16 @@ func asymHeader(uri string, cert, thumb []byte) []byte {
 	return b
 }
 
+// residueLens: body lengths that put (sequence header + body + signature) at every boundary residue modulo the
+// plaintext block size (padding lengths 0, 1, pb-1, pb-2, with one or two padding size bytes).
+func residueLens(pb, sig int) []int {
+	var ls []int
+	for _, t := range []int{0, 1, pb - 1, pb - 2} {
+		ls = append(ls, ((t-8-sig)%pb+pb)%pb)
+	}
+	return ls
+}
+
 func bodyLens(r *rng.R, pb int, n int) []int {
 	ls := []int{0, 1, pb - 1, pb, pb + 1}
 	if n < 3 { // quick tier
@@ -165,7 +175,7 @@ func c08(seed uint64, n int, keydir string) {
 		{ua.SecurityPolicyURIBasic256Sha256, 16, 32, []ua.MessageSecurityMode{ua.MessageSecurityModeSign, ua.MessageSecurityModeSignAndEncrypt}},
 	} {
 		for _, mode := range cfg.modes {
-			for _, bl := range bodyLens(r, 16, n) {
+			for _, bl := range append(bodyLens(r, 16, n), residueLens(16, cfg.sig)...) {
 				ks, kr := r.Range(1, 100), r.Range(101, 200)
 				chanID, tok := uint32(r.U64()), uint32(r.U64())
 				alice := uasc.VerifNewInstance(cfg.uri, mode, toySymAlgo(cfg.block, cfg.sig, ks, kr), chanID, tok, 0)
@@ -186,7 +196,11 @@ func c08(seed uint64, n int, keydir string) {
 	for _, sz := range [][3]int{{128, 128, 11}, {128, 256, 42}, {256, 256, 42}, {256, 257, 42}, {256, 384, 42}, {384, 256, 130}, {512, 512, 130}, {256, 512, 66}} {
 		for _, mode := range []ua.MessageSecurityMode{ua.MessageSecurityModeSign, ua.MessageSecurityModeSignAndEncrypt} {
 			la, lb, minpad := sz[0], sz[1], sz[2]
-			for _, bl := range bodyLens(r, lb-minpad, n/2) {
+			lens := bodyLens(r, lb-minpad, n/2)
+			if mode == ua.MessageSecurityModeSignAndEncrypt || n >= 8 {
+				lens = append(lens, residueLens(lb-minpad, la)...)
+			}
+			for _, bl := range lens {
 				if n < 8 && mode == ua.MessageSecurityModeSign && bl > 1 && r.Intn(3) > 0 {
 					continue // quick tier: OPN chunks are secured identically in both modes
 				}
@@ -248,7 +262,7 @@ func c08(seed uint64, n int, keydir string) {
 				if la != lb && !(la == 2048 && lb == 4096) && !(la == 4096 && lb == 2048) && !(la == 1024 && lb == 2048) {
 					continue
 				}
-				for i, bl := range []int{0, 1, aa.PlaintextBlockSize() - 8 - la/8 - 1, r.Intn(700), 700 + r.Intn(900)} {
+				for i, bl := range append([]int{0, 1, aa.PlaintextBlockSize() - 8 - la/8 - 1, r.Intn(700), 700 + r.Intn(900)}, residueLens(aa.PlaintextBlockSize(), la/8)[2:]...) {
 					if n < 8 && i%2 == 1 {
 						continue
 					}
